@@ -5,13 +5,13 @@
     matcher assembly, the radix tree's Add / findNode / Find, FindRule, Execute's
     encoded-slash switch and capture decoding).  Spec.v is the documentation:
     path expressions, `ALL` / `!M` method lists, any-host, path_params on decoded
-    segments, decoded captures.  The only open finding is C03-F8 (guard [guard_F8]);
+    segments, decoded captures.  No finding is open: C03-F8 is repaired as well (6d0a3af, decoder variant [D8]);
     each has a `_refuted` witness.  C03-F2, F3, F5, F6, F7 were repaired by `fix:` commits
     (88da16a, 20f92b3, 16cf34b, 72ba5d4, a779db8): the model is parametric in them ([fx2 fx3 fx5
     fx6 fx7], [true] = the tree as it is now) and the pinned behaviour is kept as `_pinned_refuted`.
     C03-F1 and C03-F4 are repaired as well (6793b33, 22bae5e: [fx1], [fx4]).  The slash-preserving
-    decoder has three variants [fx7 : dec]: [D0] pinned, [D7] after a779db8 (the tree as it is),
-    [D8] with the candidate repair fixes/C03-F8.diff.  The main theorems are stated for every
+    decoder has three variants [fx7 : dec]: [D0] pinned, [D7] after a779db8,
+    [D8] after 6d0a3af (the tree as it is).  The main theorems are stated for every
     value of the flags they depend on; a guard is false by definition for the repaired variant.
     What is left of the guard of C03-F6 is the request view without RawPath, which no entry
     point produces for a non-empty path any more (ae6db4f). *)
@@ -40,7 +40,7 @@ Print Assumptions C03_method_list_rejected.
 (** C03-F4: a non-empty list denoting no method is turned into "all methods" *)
 Theorem C03_F4_pinned_refuted :
   exists r cm q, only_matcher false r = Some cm /\ guard_F4 false (rl_methods r) = true /\
-    route_matches false true D7 eng_none cm q [] [] = MYes /\ spec_route_ok eng_none r [] q [] [] = false.
+    route_matches false true D8 eng_none cm q [] [] = MYes /\ spec_route_ok eng_none r [] q [] [] = false.
 Proof. exact F4_refuted. Qed.
 Print Assumptions C03_F4_pinned_refuted.
 
@@ -52,7 +52,7 @@ Print Assumptions C03_hosts_any.
 
 Theorem C03_F1_pinned_refuted :
   exists r cm q, only_matcher false r = Some cm /\ guard_F1 false eng_none (rl_hosts r) q = true /\
-    route_matches false true D7 eng_none cm q [] [] = MNo /\ spec_route_ok eng_none r [] q [] [] = true.
+    route_matches false true D8 eng_none cm q [] [] = MNo /\ spec_route_ok eng_none r [] q [] [] = true.
 Proof. exact F1_refuted. Qed.
 Print Assumptions C03_F1_pinned_refuted.
 
@@ -125,14 +125,15 @@ Theorem C03_F7_pinned_refuted :
 Proof. exact F7_pinned_refuted. Qed.
 Print Assumptions C03_F7_pinned_refuted.
 
-Theorem C03_F8_refuted :
+(** the decoder with the place-holder (before 6d0a3af) *)
+Theorem C03_F8_pinned_refuted :
   exists sl q names segs caps sc,
     caps_guard_F8 D7 sl (named_pairs names segs) = true /\
     execute D7 sl q (map_of (named_pairs names segs)) = (caps, false) /\
     spec_rejected sl q = false /\
     spec_captures sl names segs = Some sc /\ caps <> sc.
 Proof. exact F8_refuted. Qed.
-Print Assumptions C03_F8_refuted.
+Print Assumptions C03_F8_pinned_refuted.
 
 (** the tree-side findings, on loaded rule sets *)
 Theorem C03_F2_pinned_refuted :
@@ -183,7 +184,7 @@ Theorem C03_nonvacuous :
     Forall (from_path q) vals /\
     guard_F1 false eng_none (rl_hosts r) q = false /\ guard_F4 false (rl_methods r) = false /\
     on_params (guard_F6 true) (rl_slash r) q keys vals (cm_params cm) = false /\
-    on_params (guard_F8 D7) (rl_slash r) q keys vals (cm_params cm) = false /\
-    route_matches false true D7 eng_none cm q keys vals = MYes.
+    on_params (guard_F8 D8) (rl_slash r) q keys vals (cm_params cm) = false /\
+    route_matches false true D8 eng_none cm q keys vals = MYes.
 Proof. exact route_semantics_nonvacuous. Qed.
 Print Assumptions C03_nonvacuous.
